@@ -17,6 +17,8 @@ pub mod sign;
 pub mod stateres;
 pub mod uri;
 mod enumord;
+mod cdisp;
+mod handenum;
 pub mod wire;
 pub mod xmatrix;
 
@@ -67,6 +69,8 @@ fn run_inner(name: &str, tier: &str) -> Option<Value> {
         "stateres" => stateres::run(tier).to_json(),
         "uri" => uri::run(tier).to_json(),
         "enumord" => enumord::run(tier).to_json(),
+        "cdisp" => cdisp::run(tier).to_json(),
+        "handenum" => handenum::run(tier).to_json(),
         _ => return None,
     })
 }
